@@ -554,4 +554,113 @@ func c13Sched(r *Report) {
 		res.Violations = keep
 		r.AddExplore(res, "all interleavings (unbounded preemptions, happens-before caching)", time.Since(t0).Seconds())
 	}
+	c13DynSched(r)
+}
+
+// ---------------------------------------------------------------------------------
+// C13 (schedules over the DynamoDB plugins): concurrent callers on ONE metastore object. Two goroutines read different
+// ids (LoadLatest, Load) while a third stores; the transport (the fake client) is a scheduling point that reads the
+// request only when it is delivered. Every read returns the record of the id that was asked for.
+// ---------------------------------------------------------------------------------
+
+func c13DynBuild(ver string) (ae.Metastore, *doubles.FakeDynamo) {
+	fake := doubles.NewFakeDynamo("us-west-2", "EncryptionKey")
+	switch ver {
+	case "v1":
+		return dynv1.NewDynamoDBMetastore(c13Session(), dynv1.WithClient(doubles.DynamoV1{F: fake})), fake
+	case "deprecated":
+		return persistence.NewDynamoDBMetastore(c13Session(), persistence.WithClient(doubles.DynamoV1{F: fake})), fake
+	}
+	m, err := dynv2.NewDynamoDB(dynv2.WithDynamoDBClient(doubles.DynamoV2{F: fake}))
+	if err != nil {
+		panic(err)
+	}
+	return m, fake
+}
+
+func c13DynSchedBody(ver string) explore.Body {
+	return func(c *explore.Ctx) {
+		vsched.BeginQuiet()
+		ms, fake := c13DynBuild(ver)
+		ka := []c13Key{{"_IK_a_svc_prod", 1700000040}, {"_IK_a_svc_prod", 1700000100}}
+		kb := []c13Key{{"_IK_b_svc_prod", 1700000040}, {"_IK_b_svc_prod", 1700000160}}
+		for i, k := range append(append([]c13Key{}, ka...), kb...) {
+			if ok, err := ms.Store(ctx, k.id, k.created, c13Variant(i%3, k)); !ok || err != nil {
+				panic(fmt.Sprintf("C13 set-up store: %v %v", ok, err))
+			}
+		}
+		want := func(k c13Key, i int) *ae.EnvelopeKeyRecord { return c13Variant(i%3, k) }
+		vsched.EndQuiet()
+		type res struct {
+			what string
+			got  *ae.EnvelopeKeyRecord
+			err  error
+			want *ae.EnvelopeKeyRecord
+		}
+		var results [3][]res
+		reader := func(slot int, ks []c13Key, base int) func() {
+			return func() {
+				r, err := ms.LoadLatest(ctx, ks[1].id)
+				results[slot] = append(results[slot], res{"LoadLatest(" + ks[1].id + ")", r, err, want(ks[1], base+1)})
+				r2, err2 := ms.Load(ctx, ks[0].id, ks[0].created)
+				results[slot] = append(results[slot], res{fmt.Sprintf("Load(%s,%d)", ks[0].id, ks[0].created), r2, err2, want(ks[0], base)})
+			}
+		}
+		vsched.GoNamed("readerA", reader(0, ka, 0))
+		vsched.GoNamed("readerB", reader(1, kb, 2))
+		kc := c13Key{"_IK_c_svc_prod", 1700000040}
+		vsched.GoNamed("storer", func() {
+			ok, err := ms.Store(ctx, kc.id, kc.created, c13Variant(0, kc))
+			if !ok || err != nil {
+				results[2] = append(results[2], res{"Store(c)", nil, fmt.Errorf("Store of a new key returned %v, %v", ok, err), nil})
+			}
+		})
+		vsched.Quiesce()
+		if b := vsched.Blocked(); len(b) > 0 {
+			c.Failf("blocked", "threads blocked: %v", b)
+			return
+		}
+		if len(fake.Unsupported) > 0 {
+			c.Failf("MACHINERY-GAP", "request outside the fake's grammar: %v", fake.Unsupported)
+			return
+		}
+		for _, rs := range results {
+			for _, x := range rs {
+				switch {
+				case x.err != nil:
+					c.Failf("concurrent-read-error", "%s failed while other callers used the same metastore: %v", x.what, x.err)
+				case x.want != nil:
+					if d := c13Equal(x.got, x.want); d != "" {
+						c.Failf("concurrent-read-wrong-record", "%s returned another record while other callers used the same metastore: %s", x.what, d)
+					}
+				}
+			}
+		}
+		if r, _ := ms.Load(ctx, kc.id, kc.created); r == nil {
+			c.Failf("stored-record-missing", "the record stored concurrently is not visible afterwards")
+		}
+	}
+}
+
+func c13DynSched(r *Report) {
+	for _, ver := range []string{"v1", "v2", "deprecated"} {
+		if !r.TimeLeft() {
+			r.Exhaustive = false
+			r.Caps = append(r.Caps, "C13s/dynamodb-"+ver+": not started (time budget)")
+			continue
+		}
+		t0 := time.Now()
+		cfg := explore.Config{Name: "C13s/dynamodb-" + ver + "-2-readers-1-storer", Preemptions: 3, Deviations: 0, HBCache: false, Deadline: r.Deadline, MaxViolations: 5}
+		res := explore.Explore(cfg, c13DynSchedBody(ver))
+		seen := map[string]bool{}
+		var keep []explore.Violation
+		for _, v := range res.Violations {
+			if !seen[v.Sig] {
+				seen[v.Sig] = true
+				keep = append(keep, v)
+			}
+		}
+		res.Violations = keep
+		r.AddExplore(res, "preemptions <= 3 at the transport (requests are read when they are delivered)", time.Since(t0).Seconds())
+	}
 }
